@@ -170,7 +170,10 @@ func c08(r *rt.Run) {
 	r.Extra["transitions"] = r.Get("evaluations")
 	r.Extra["traces_validated_against_impl"] = r.Get("evaluations")
 	r.Extra["distinct_nontrivial"] = len(U)
-	r.Finish("universe of constants built through the public constructors (leaves of every kind; one level of pair/list/map/struct over 14 leaves; a second level over 8 values); every ordered pair: Equals vs structural truth, symmetry, Equals=>Hash/String equal, String equal=>Equals (valid names, finite floats), same for atoms p(c), q(c,d); " +
+	// the library uses printed constants as dictionary keys for group_by: groups must be the Equals-classes
+	// (every ordered pair of a universe of mutually confusable constants as keys of 4 aggregating rules)
+	c02KeyFamily(r)
+	r.Finish("universe of constants built through the public constructors (leaves of every kind; one level of pair/list/map/struct over 14 leaves; a second level over 8 values); every ordered pair: Equals vs structural truth, symmetry, Equals=>Hash/String equal, String equal=>Equals (valid names, finite floats), same for atoms p(c), q(c,d); printed constants as group_by keys: groups are the Equals-classes for every ordered pair of 44 confusable constants; " +
 		"triples over a 150-element sub-universe (transitivity); maps/structs from every argument order; non-trivial = every constant of the universe (distinct structural keys counted in states)")
 }
 
